@@ -4,8 +4,8 @@ import engines.search as se
 from props._searchprop import SEARCH_TARGETS, SEARCH_TRUST, run_search_prop, replay_search
 
 PROP = 'C01'
-LEAN_TARGETS = SEARCH_TARGETS + ['MM.Props.C01Admit']
-THEOREMS = ['MM.Search.' + n for n in ('evaluated_sub_listing', 'C01_exhaustive_evaluated', 'C01_exhaustive', 'C01_greedy')] + ['MM.Admit.admit_sorted', 'MM.Admit.admit_must', 'MM.Admit.admit_excluded', 'MM.Admit.admit_optional', 'MM.Admit.admit_all_candidates', 'MM.Admit.admit_cap', 'MM.Admit.admit_classes', 'MM.Admit.ids_injective']
+LEAN_TARGETS = SEARCH_TARGETS + ['MM.Props.C01Admit', 'MM.Props.C01Ids']
+THEOREMS = ['MM.Search.' + n for n in ('evaluated_sub_listing', 'C01_exhaustive_evaluated', 'C01_exhaustive', 'C01_greedy')] + ['MM.Admit.admit_sorted', 'MM.Admit.admit_must', 'MM.Admit.admit_excluded', 'MM.Admit.admit_optional', 'MM.Admit.admit_all_candidates', 'MM.Admit.admit_cap', 'MM.Admit.admit_classes', 'MM.Admit.ids_injective'] + ['MM.Admit.C01_ids', 'MM.Admit.C01_ids_exhaustive', 'MM.Admit.C01_ids_greedy']
 TRUSTED_BASE = SEARCH_TRUST + ['legality is stated on index sets of the admitted geos; the index->ID map (geo_index) is compared by the correspondence']
 
 
